@@ -71,7 +71,9 @@ Zone(q) ==
   IF q.typ = "HTTPS" THEN HttpsAt(hs, q.name, Svcb)
   ELSE IF q.name = N("t") THEN AddrAt(ts, q.name, q.typ, IF q.typ = "A" THEN "t4" ELSE "t6")
   ELSE IF q.name = N("evil") THEN OK(<< RR(q.name, q.typ, "evil9") >>)
-  ELSE IF q.typ = "A" THEN AddrAt(as, q.name, "A", "o4") ELSE AddrAt(a6s, q.name, "AAAA", "o6")
+  \* addresses differ by owner: the origin's are o4/o6, those of any other name (alias targets) x4/x6
+  ELSE IF q.typ = "A" THEN AddrAt(as, q.name, "A", IF q.name = N(Origin) THEN "o4" ELSE "x4")
+  ELSE AddrAt(a6s, q.name, "AAAA", IF q.name = N(Origin) THEN "o6" ELSE "x6")
 
 \* resolveOneNoCache's filter: records owned by the question name or reached through the in-answer CNAME chain
 RECURSIVE Filter(_, _, _, _)
@@ -173,6 +175,8 @@ RcodeMapping == Done /\ inp.valid /\ inp.literal = "" =>
                   /\ (hs = "refused" => result = [kind |-> "err", class |-> "refused"])
                   /\ (hs = "notauth" => result = [kind |-> "err", class |-> "other"])
 NameLimits == Done /\ ~inp.valid /\ inp.literal = "" => result = [kind |-> "err", class |-> "invalid_name"] /\ queries = <<>>
-LoopFallsBack == Done /\ hs \in {"loop", "chain4", "chain6"} /\ result.kind = "ok" => result.https = <<>>
+LoopFallsBack == Done /\ hs \in {"loop", "chain4", "chain6"} /\ result.kind = "ok" =>
+                   /\ result.https = <<>>
+                   /\ \A k \in DOMAIN result.address : result.address[k] \in {"o4", "o4b", "o4c", "o6", "o6b", "o6c"}    \* the queried name's own addresses
 Termination == <>Done
 =============================================================================
